@@ -240,3 +240,54 @@ func Gofmt(src []byte) ([]byte, error) {
 	}
 	return out.Bytes(), nil
 }
+
+// BuildDriver copies /verif/drivers/<name> (plus the explorer) into a scratch
+// module whose go.mod points at the scratch copy's pkg/*, adds extra files and
+// builds it with -tags driver.
+func (s *Scratch) BuildDriver(verifDir, name string, extra map[string]string) (string, error) {
+	dir := filepath.Join(s.Root, "drv", name)
+	os.RemoveAll(dir)
+	if err := os.MkdirAll(filepath.Join(dir, "explore"), 0o755); err != nil {
+		return "", err
+	}
+	ents, err := os.ReadDir(filepath.Join(verifDir, "drivers", name))
+	if err != nil {
+		return "", err
+	}
+	for _, e := range ents {
+		if e.IsDir() {
+			continue
+		}
+		b, err := os.ReadFile(filepath.Join(verifDir, "drivers", name, e.Name()))
+		if err != nil {
+			return "", err
+		}
+		os.WriteFile(filepath.Join(dir, e.Name()), b, 0o644)
+	}
+	// shared driver helpers
+	if ents, err := os.ReadDir(filepath.Join(verifDir, "drivers", "common")); err == nil {
+		for _, e := range ents {
+			b, _ := os.ReadFile(filepath.Join(verifDir, "drivers", "common", e.Name()))
+			os.WriteFile(filepath.Join(dir, e.Name()), b, 0o644)
+		}
+	}
+	b, err := os.ReadFile(filepath.Join(verifDir, "internal", "explore", "explore.go"))
+	if err != nil {
+		return "", err
+	}
+	os.WriteFile(filepath.Join(dir, "explore", "explore.go"), b, 0o644)
+	for n, c := range extra {
+		os.WriteFile(filepath.Join(dir, n), []byte(c), 0o644)
+	}
+	if err := s.GoModule(dir, "drv"); err != nil {
+		return "", err
+	}
+	out := filepath.Join(s.Bin, "drv_"+name)
+	cmd := exec.Command("go", "build", "-tags", "driver", "-o", out, ".")
+	cmd.Dir = dir
+	cmd.Env = goEnv()
+	if bb, err := cmd.CombinedOutput(); err != nil {
+		return "", fmt.Errorf("go build driver %s: %v\n%s", name, err, bb)
+	}
+	return out, nil
+}
